@@ -13,10 +13,10 @@
     int32 bit positions [tobit + 7] and [len(s) << 3] do not overflow).  No bound
     on the length of the string or of the key list otherwise. *)
 From Coq Require Import ZArith List Bool Lia Sorted.
-From Low Require Import Lib.Bits Lib.BitSeq Lib.Lex Lib.Bytes Spec.Bmtree Spec.PathSpec Spec.FromStr32Spec
+From Low Require Import Lib.MachInt Lib.Bits Lib.BitSeq Lib.Lex Lib.Bytes Spec.Bmtree Spec.PathSpec Spec.FromStr32Spec
   Spec.PathsOfSortedSpec Model.BmtreePath Model.BmtreePathStr Model.FromStr32 Model.LegacyPathsOf
   Model.FromStr32Variants
-  Proofs.FromStr32Proofs Proofs.FromStr32Order.
+  Proofs.FromStr32Proofs Proofs.FromStr32Order Proofs.FromStr32Far.
 Import ListNotations.
 Open Scope Z_scope.
 
@@ -282,3 +282,61 @@ Proof.
   - repeat constructor; vm_compute; discriminate.
   - repeat constructor.
 Qed.
+
+(** * The far end of int32: start bits within 40 of MaxInt32
+
+    There [from + w] - PathOf's own [frombit+height] - wraps negative ([i32] below is
+    Go's int32 wrap, written explicitly in the model of PathOf).  The code only uses
+    differences of tobit and frombit and tests the string end first, so the side
+    condition [from + w + 7 < 2^31] of the theorems above is not needed for a start at
+    or beyond the end of the string (every start > MaxInt32-40 is one, for every
+    string of less than 2^28-5 bytes): *)
+
+(** a start at/beyond the end gives (0, 0), whatever tobit is (also tobit < frombit) *)
+Theorem C11_FromStr32_beyond : forall s from to,
+  0 <= from < 2 ^ 31 -> 8 * zlen s < 2 ^ 31 -> 8 * zlen s <= from ->
+  FromStr32 s from to = Some (0, 0).
+Proof. exact FromStr32_beyond. Qed.
+Print Assumptions C11_FromStr32_beyond.
+
+(** ... and PathOf gives the empty path: the word 0, of length 0, rendered "" *)
+Theorem C11_PathOf_beyond : forall s from h,
+  0 <= from < 2 ^ 31 -> 0 <= h <= 32 -> 8 * zlen s < 2 ^ 31 -> 8 * zlen s <= from ->
+  exists p, PathOf s from h = Some p /\ p = 0 /\ PathLen p = 0 /\ PathStr p = [].
+Proof. exact PathOf_beyond_empty. Qed.
+Print Assumptions C11_PathOf_beyond.
+
+(** the property over the whole int32 range of the start bit, with tobit = int32(from + w)
+    as PathOf computes it: either nothing overflows or the start is beyond the string.
+    (These are the domain and the checker functions of the correspondence run.) *)
+Theorem C11_FromStr32_wrap : forall s from w,
+  bytes_ok s -> 0 <= from < 2 ^ 31 -> 0 <= w <= 32 -> 8 * zlen s < 2 ^ 31 ->
+  (from + w + 7 < 2 ^ 31 \/ 8 * zlen s <= from) ->
+  FromStr32 s from (i32 (from + w)) = Some (spec_FromStr32 s from w).
+Proof. exact FromStr32_spec_wrap. Qed.
+Print Assumptions C11_FromStr32_wrap.
+
+Theorem C11_PathOf_wrap : forall s from h,
+  bytes_ok s -> 0 <= from < 2 ^ 31 -> 0 <= h <= 32 -> 8 * zlen s < 2 ^ 31 ->
+  (from + h + 7 < 2 ^ 31 \/ 8 * zlen s <= from) ->
+  PathOf s from h = Some (spec_PathOf s from h).
+Proof. exact PathOf_spec_wrap. Qed.
+Print Assumptions C11_PathOf_wrap.
+
+Theorem C11_PathsOf_wrap : forall keys from h dedup,
+  0 <= from < 2 ^ 31 -> 0 <= h <= 32 ->
+  Forall (fun s => bytes_ok s /\ 8 * zlen s < 2 ^ 31 /\ (from + h + 7 < 2 ^ 31 \/ 8 * zlen s <= from)) keys ->
+  PathsOf keys from h dedup = Some (spec_PathsOf keys from h dedup).
+Proof. exact PathsOf_spec_wrap. Qed.
+Print Assumptions C11_PathsOf_wrap.
+
+(** non-vacuity: from = MaxInt32 and MaxInt32-8 with w = 32 (the sum wraps to a negative tobit);
+    and a key list longer than 1024 keys (PathsOf is about any number of keys) *)
+Example C11_far_nonvacuous :
+  i32 (2 ^ 31 - 1 + 32) = - 2 ^ 31 + 31 /\
+  FromStr32 [255; 165] (2 ^ 31 - 1) (i32 (2 ^ 31 - 1 + 32)) = Some (0, 0) /\
+  spec_FromStr32 [255; 165] (2 ^ 31 - 1) 32 = (0, 0) /\
+  PathOf [97] (2 ^ 31 - 8) 32 = Some 0 /\
+  PathsOf (repeat [97] 1026) 0 8 true = Some [0x61000000ff] /\
+  length (repeat [97] 1026) = 1026%nat.
+Proof. repeat apply conj; vm_compute; reflexivity. Qed.
